@@ -223,6 +223,33 @@ func vkBehaviours() []vkBehaviour {
 			return true
 		}, Probes: func(c *vkBCtx) []vkProbe { return []vkProbe{{Name: c.first() + ".v.t.", Type: dns.TypeA}} }},
 
+		// a DNAME owned by an ANCESTOR of the sender's zone (its TLD, the root): the sender cannot speak
+		// for it, yet it is "an ancestor of the query name" — the redirect it announces must not be
+		// followed or relayed
+		{Name: "dname-ancestor-tld", Fn: func(c *vkBCtx, m *dns.Msg) bool {
+			qn := zonemodel.Canon(c.q.Name)
+			if c.q.Qtype == dns.TypeCNAME || c.q.Qtype == dns.TypeDNAME || !strings.HasSuffix(qn, ".t.") {
+				return false
+			}
+			tgt := strings.TrimSuffix(qn, "t.") + "v.t."
+			m.Answer = []dns.RR{vkRR("t. 300 IN DNAME v.t."), vkRR(c.q.Name + " 300 IN CNAME " + tgt)}
+			m.Ns, m.Extra, m.Authoritative, m.Rcode = nil, nil, true, dns.RcodeSuccess
+			return true
+		}},
+		{Name: "dname-ancestor-root", Fn: func(c *vkBCtx, m *dns.Msg) bool {
+			qn := zonemodel.Canon(c.q.Name)
+			if c.q.Qtype == dns.TypeCNAME || c.q.Qtype == dns.TypeDNAME {
+				return false
+			}
+			tgt := qn + "v.t."
+			m.Answer = []dns.RR{vkRR(". 300 IN DNAME v.t."), vkRR(c.q.Name + " 300 IN CNAME " + tgt)}
+			m.Ns, m.Extra, m.Authoritative, m.Rcode = nil, nil, true, dns.RcodeSuccess
+			return true
+		}},
+		vkAnswerB("ans-extra-ancestor-dname", 0, func(c *vkBCtx, m *dns.Msg) {
+			m.Answer = append(m.Answer, vkRR("t. 300 IN DNAME "+c.zone))
+		}),
+
 		// ---- referrals the sender has no business sending
 		vkRefB("ref-self", 0, func(c *vkBCtx) ([]dns.RR, []dns.RR, bool) {
 			return []dns.RR{vkNS(c.zone, c.evil)}, vkEvilGlue(c), true
